@@ -105,6 +105,7 @@ class RawPeer:
         self.sock = sock
         self.ready = not self.tls
         self.hs_steps = 0
+        self.written = bytearray()   # everything handed to write(), in order (= accepted + out)
         self.out = bytearray()       # queued, not yet accepted by the kernel / OpenSSL
         self.accepted = bytearray()  # accepted so far (what the hio side can ever receive)
         self.inb = bytearray()       # everything this peer has received
@@ -132,6 +133,7 @@ class RawPeer:
 
     def write(self, data):
         self.out += data
+        self.written += data
 
     def flush(self):
         moved = 0
